@@ -16,6 +16,7 @@
 //! prefix of the run of the whole (earlier lines take effect whatever follows, including a syntax
 //! error); `read` received exactly the next line; every offset a command sees is a line start.
 use std::cell::{Cell, RefCell};
+use std::ops::ControlFlow::{Break, Continue};
 use std::io::SeekFrom;
 use std::rc::Rc;
 use std::time::{Duration, Instant};
@@ -29,7 +30,16 @@ use yash_env::system::r#virtual::{FileBody, Process, SystemState, VirtualSystem}
 use yash_env::system::{Close as _, Concurrent, Pipe as _};
 use yverif::proto::{Opts, dec_bytes, emit, enc_bytes, enc_str, guarded, quiet_panics};
 use yverif::rng::Rng;
-use yverif::shell::{BuiltinFuture, Config, Outcome, SourceKind, VEnv, run_with};
+use yash_cli::startup::args::{InitFile, Run, Source, Work};
+use yash_cli::startup::configure_environment;
+use yash_env::Env;
+use yash_env::parser::Mode;
+use yash_env::semantics::Divert;
+use yash_semantics::read_eval_loop;
+use yash_semantics::trap::run_exit_trap;
+use yash_syntax::parser::Parser;
+use yash_syntax::parser::lex::Lexer;
+use yverif::shell::{BuiltinFuture, Config, Outcome, SourceKind, VEnv, probe_builtins, read_file, run_with};
 
 #[derive(Clone, Debug)]
 enum Feed {
@@ -211,6 +221,143 @@ fn a3_main(env: &mut VEnv, args: Vec<Field>) -> BuiltinFuture<'_> {
     alias_name_main("a3")(env, args)
 }
 
+/// Does `code` parse to its end with the parser configured from the environment as it is *now*
+/// (options → mode, aliases)?  Nothing is executed.  `Some(n)`: yes, `n` command lines (possibly empty
+/// ones); `None`: syntax error.
+async fn parses(env: &mut VEnv, code: &str) -> Option<usize> {
+    let mode = Mode::from(&env.options);
+    let ref_env = RefCell::new(env);
+    let mut lexer = Lexer::with_code(code);
+    let mut count = 0;
+    loop {
+        if !lexer.pending() {
+            lexer.flush();
+        }
+        lexer.set_mode(mode);
+        let r = Parser::config()
+            .aliases(&ref_env)
+            .declaration_utilities(&ref_env)
+            .input(&mut lexer)
+            .command_line()
+            .await;
+        match r {
+            Ok(Some(_)) => count += 1,
+            Ok(None) => return Some(count),
+            Err(_) => return None,
+        }
+    }
+}
+
+/// The `sh -c` run done piecewise: the units are fed **one at a time through separate
+/// `read_eval_loop` calls on the same environment** (a unit that does not parse on its own under the
+/// environment of that moment is joined with the following ones first).  Every call configures its
+/// parser afresh from the environment, so a later unit necessarily sees what the earlier ones did
+/// (option changes, alias definitions): whatever state the single run keeps across lines, this run
+/// cannot keep it.
+fn run_sequential(units: &[Vec<u8>], data: &[u8]) -> Outcome {
+    let system = VirtualSystem::new();
+    let state = Rc::clone(&system.state);
+    let executor = yash_executor::Executor::new();
+    state.borrow_mut().executor = Some(Rc::new(executor.spawner()));
+    let env = Env::with_system(Rc::new(Concurrent::new(system)));
+    let concurrent = Rc::clone(&env.system);
+    let result: Rc<Cell<Option<i32>>> = Rc::new(Cell::new(None));
+    let result2 = Rc::clone(&result);
+    let state2 = Rc::clone(&state);
+    let texts: Vec<String> = units.iter().map(|u| String::from_utf8_lossy(u).into_owned()).collect();
+    let data = data.to_vec();
+    let main = async move {
+        let mut env = env;
+        let run = Run {
+            work: Work {
+                source: Source::String(String::new()),
+                profile: InitFile::None,
+                rcfile: InitFile::None,
+            },
+            options: vec![],
+            arg0: "yash".into(),
+            positional_params: vec![],
+        };
+        let _work = configure_environment(&mut env, run).await;
+        env.builtins.extend(probe_builtins());
+        STATE.with(|s| *s.borrow_mut() = Some(Rc::clone(&state2)));
+        PROBES.set(0);
+        env.builtins.insert("probe", Builtin::new(Type::Mandatory, probe_main));
+        env.builtins.insert("a1", Builtin::new(Type::Mandatory, a1_main));
+        env.builtins.insert("a2", Builtin::new(Type::Mandatory, a2_main));
+        env.builtins.insert("a3", Builtin::new(Type::Mandatory, a3_main));
+        {
+            let inode = state2.borrow().file_system.get("/dev/stdin").unwrap();
+            if let FileBody::Regular { content, .. } = &mut inode.borrow_mut().body {
+                *content = data.clone();
+            }
+        }
+        let mut final_result = Continue(());
+        let mut i = 0;
+        while i < texts.len() {
+            let mut chunk = texts[i].clone();
+            let mut j = i + 1;
+            // a unit is fed on its own only if it is a complete piece of input: it parses, and it
+            // does not end with a backslash-newline that would join it to the next line
+            while j < texts.len()
+                && (chunk.ends_with("\\\n") || parses(&mut env, &chunk).await.is_none())
+            {
+                chunk.push_str(&texts[j]);
+                j += 1;
+            }
+            i = j;
+            if parses(&mut env, &chunk).await == Some(0) {
+                // nothing to run (a comment without newline at the very end): a read-eval loop that
+                // finds no command at all resets `$?`, which the single run would not do here
+                continue;
+            }
+            let ref_env = RefCell::new(&mut env);
+            let mut lexer = Lexer::with_code(&chunk);
+            let r = read_eval_loop(&ref_env, &mut lexer).await;
+            if let Break(_) = r {
+                final_result = r;
+                break;
+            }
+        }
+        env.apply_result(final_result);
+        match final_result {
+            Break(Divert::Abort(_)) => (),
+            _ => run_exit_trap(&mut env).await,
+        }
+        result2.set(Some(env.exit_status.0));
+    };
+    let runner = async move { concurrent.run_virtual(main).await };
+    // SAFETY: single-threaded, as in yverif::shell::run_with
+    unsafe { executor.spawn_pinned(Box::pin(runner)) };
+    let mut rounds = 0usize;
+    let mut stuck = false;
+    let mut status = -1;
+    loop {
+        executor.run_until_stalled();
+        if let Some(r) = result.take() {
+            status = r;
+            break;
+        }
+        rounds += 1;
+        let mut st = state.borrow_mut();
+        if let Some(next) = st.scheduled_wakers.next_wake_time() {
+            st.advance_time(next);
+        }
+        drop(st);
+        if executor.wake_count() == 0 || rounds > 100_000 {
+            stuck = true;
+            break;
+        }
+    }
+    STATE.with(|s| *s.borrow_mut() = None);
+    Outcome {
+        stdout: read_file(&state, "/dev/stdout").unwrap_or_default(),
+        stderr: read_file(&state, "/dev/stderr").unwrap_or_default(),
+        exit_status: status,
+        stuck,
+    }
+}
+
 // ---------------------------------------------------------------------------------------------
 // cases
 
@@ -280,7 +427,10 @@ fn is_probe_line(l: &str) -> bool {
 }
 
 fn observe(script: &[u8], data: &[u8], feed: &Feed) -> Obs {
-    let o = run_feed(script, data, feed);
+    obs_of(run_feed(script, data, feed))
+}
+
+fn obs_of(o: Outcome) -> Obs {
     let out = o.stdout.clone();
     let mut items = vec![];
     let mut lines: Vec<&[u8]> = out.split(|&b| b == b'\n').collect();
@@ -415,6 +565,17 @@ fn oracle(c: &Case, script: &[u8], obs: &Obs) -> String {
             }
         }
         Feed::Str => {
+            // (5) later lines see what earlier lines did: the same units fed one at a time through
+            // separate read-eval loops on the same environment give the same observation
+            if c.units.iter().all(|u| !u.is_empty()) {
+                let seq = obs_of(run_sequential(&c.units, &c.data));
+                if seq.stuck {
+                    return "FAIL:stuck-in-piecewise-run".into();
+                }
+                if seq.items != obs.items || seq.status != obs.status || seq.err != obs.err {
+                    return format!("FAIL:later-line-did-not-see-earlier-line piecewise={}", show(&seq));
+                }
+            }
             if !reads_stdin(script) {
                 let a: Vec<String> = obs.items.iter().map(|i| strip_offset(i)).collect();
                 let b: Vec<String> = reference.items.iter().map(|i| strip_offset(i)).collect();
@@ -791,6 +952,67 @@ impl Gen {
             _ => format!("set -v; probe {}", self.m()),
         }
     }
+    /// a construct whose acceptance depends on the `portable` option (the parser's `Mode`); `safe` =
+    /// the spelling that is accepted either way
+    fn dependent(&mut self, safe: bool) -> String {
+        let m = self.m();
+        match (self.rng.below(7), safe) {
+            (0, true) => format!("( (st 0); probe {m})"),
+            (0, false) => format!("((st 0); probe {m})"),
+            (1, true) => format!("probe {m} arr"),
+            (1, false) => format!("arr=(1 2); probe {m} $?"),
+            (2, true) => format!("! (st 1); probe {m} $?"),
+            (2, false) => format!("!(st 1); probe {m} $?"),
+            (3, true) => format!("f_x() {{ probe {m}; }}; probe {m} $?"),
+            (3, false) => format!("f.x() {{ probe {m}; }}; probe {m} $?"),
+            (4, true) => format!(": x; probe {m} $?"),
+            (4, false) => format!("foo: x; probe {m} $?"),
+            (5, true) => format!("{{ (st 0)\n}}; probe {m}"),
+            (5, false) => format!("{{ (st 0) }}; probe {m} $?"),
+            (_, true) => format!("! st 0; probe {m} $?"),
+            (_, false) => format!("arr=(a\nb c\n); probe {m}"),
+        }
+    }
+    /// the `portable` option toggled mid-input (also inside a multi-line compound command) and
+    /// constructs that depend on it
+    fn mode_unit(&mut self) -> String {
+        match self.rng.below(9) {
+            0 | 1 => {
+                self.portable = true;
+                "set -o portable".into()
+            }
+            2 => {
+                self.portable = false;
+                "set +o portable".into()
+            }
+            3 => {
+                // the dependent construct belongs to the command line that sets the option: it was
+                // parsed before the option changed
+                let on = self.portable;
+                self.portable = true;
+                let d = self.dependent(on);
+                format!("if st 0; then\nset -o portable\n{d}\nfi")
+            }
+            4 => {
+                let was = self.portable;
+                self.portable = false;
+                let d1 = self.dependent(was);
+                let d2 = self.dependent(false);
+                format!("{{ set +o portable\n{d1}\n}}\n{d2}")
+            }
+            5 => {
+                self.portable = true;
+                let d = self.dependent(true);
+                format!("while st 1; do :; done; set -o portable\n{d}")
+            }
+            _ => {
+                // mostly the spelling that the current mode accepts; sometimes (portable on) the
+                // other one: a syntax error that only exists because an earlier line set the option
+                let safe = self.portable && !self.rng.chance(1, 6);
+                self.dependent(safe)
+            }
+        }
+    }
     fn quoted_unit(&mut self) -> String {
         match self.rng.below(5) {
             0 => format!("probe {} \"{}\n{}\"", self.m(), self.word(), self.word()),
@@ -904,10 +1126,10 @@ impl Gen {
             15 | 16 => self.heredoc(),
             17 => self.quoted_unit(),
             18 => self.blank_unit(),
-            _ => match self.rng.below(4) {
+            _ => match self.rng.below(6) {
                 0 => self.raw_unit(),
                 1 => self.alias_open_unit(),
-                2 => self.quoted_unit(),
+                2 | 3 | 4 => self.mode_unit(),
                 _ => self.line(),
             },
         }
